@@ -57,6 +57,7 @@ def configs(tier):
         for mode in ('static', 'dynamic'):
             for st in ('batch', 'geometric', 'uniform', 'interval'):
                 add(group='fresh_flags', cls=cls, mode=mode, storage=st, d=2, q=1, T=3 if tier == 'quick' else 4, _cost=400)
+            add(group='fresh_flags', cls=cls, mode=mode, storage='batch', d=2, q=1, T=2, prefill=1, _cost=400)
     for cls in CLASSES:
         add(group='given_objects', cls=cls, d=2, _cost=20)
     for cls in ('IncrementalSage', 'IncrementalPFI'):
@@ -250,9 +251,9 @@ def _fresh_flags(env, cfg):
     with the user feeding the storage manually (public update_storage) whenever a call did not"""
     cls = CLASSES[cfg['cls']]
     log = Log()
-    b = build_incremental(env, cls, dict(cfg, m=0, cap=4, state='fresh', imputer='joint'), faults=log)
+    b = build_incremental(env, cls, dict(cfg, m=cfg.get('prefill', 0), cap=4, state='fresh', imputer='joint'), faults=log)
     ex, names, storage = b['ex'], b['names'], b['storage']
-    expected = []           # observations the storage must have received, in order
+    expected = list(b['rows'])      # (rows a user put into the storage beforehand, then) the observations it must receive, in order
     for t in range(cfg['T']):
         flag = env.choose(2, label=('update_storage', t)) == 1
         x, y = sym_row(env, names, f"x{t}"), env.real(f"y{t}")
